@@ -79,7 +79,10 @@ def rand_arg(rng, depth=3, bad_at=None, level=0):
     if r < 0.22:
         return {"k": "text", "s": rng.choice(["", "a", "bcd", "x y", "<&>", "é"])}
     if r < 0.36:
-        return {"k": "num", "v": rng.choice([0, 1, -5, 2.5, 1e300, True, False, "nan"])}
+        n_ = {"k": "num", "v": rng.choice([0, 1, -5, 2.5, 1e300, True, False, "nan"])}
+        if n_["v"] not in (True, False, "nan") and rng.random() < 0.2:
+            n_["proto"] = True      # an int / float subclass that also has _repr_html_ / tagify: still a number
+        return n_
     if r < 0.48:
         return {"k": "none"}
     if r < 0.62:
@@ -92,8 +95,10 @@ def rand_arg(rng, depth=3, bad_at=None, level=0):
         return {"k": "meta"}
     if r < 0.88:
         return {"k": "obj", "s": "<u>o</u>"}
-    if r < 0.93:
+    if r < 0.90:
         return {"k": "inst", "has": rng.choice(["tagify", "repr"])}
+    if r < 0.93:
+        return {"k": "mapcomp"}
     return {"k": "tf", "ret": "list", "c": [{"k": "text", "s": "p"}]}
 
 
